@@ -135,22 +135,25 @@ namespace Element
 
 def flagsJ (fl : List Nat) : J := .arr (fl.map (fun (n : Nat) => J.num (n : Int)))
 
-/-- `Element.description` (a raw-array channel with flags makes it raise TypeError) -/
+/-- the description of one channel entry (a raw-array channel with flags raises TypeError) -/
+def chanDesc (ent : ChEntry) : Except Err J :=
+  match ent.data with
+  | .bp b =>
+    match b.toDesc, ent.flags with
+    | .obj l, some fl => pure (J.obj (l ++ [("flags", flagsJ fl)]))
+    | d, _ => pure d
+  | .arr _ _ =>
+    match ent.flags with
+    | some _ => throw Err.type
+    | none => pure (J.str "array")
+  | .broken =>
+    match ent.flags with
+    | some _ => throw Err.type
+    | none => pure (J.str "array")
+
+/-- `Element.description` -/
 def toDesc (e : Element) : Except Err J := do
-  let fields ← e.chans.mapM (fun (ch, ent) => do
-    match ent.data with
-    | .bp b =>
-      match b.toDesc, ent.flags with
-      | .obj l, some fl => pure (ch.toStr, J.obj (l ++ [("flags", flagsJ fl)]))
-      | d, _ => pure (ch.toStr, d)
-    | .arr _ _ =>
-      match ent.flags with
-      | some _ => throw Err.type
-      | none => pure (ch.toStr, J.str "array")
-    | .broken =>
-      match ent.flags with
-      | some _ => throw Err.type
-      | none => pure (ch.toStr, J.str "array"))
+  let fields ← e.chans.mapM (fun (ch, ent) => (chanDesc ent).map (fun d => (ch.toStr, d)))
   pure (J.obj fields)
 
 def parseChan (k : String) : Except Err Chan :=
